@@ -28,7 +28,7 @@ ASSUMPTIONS = ['readiness predicate is conservative: only asserted when '
                'every gating condition is unambiguously open']
 MIN = {'c03.auto_shutdown_checks': 30, 'c03.stall_checks': 30,
        'c03.ready_task_iterations': 300}
-NCASES = {'quick': 300, 'thorough': 4000}
+NCASES = {'quick': 1000, 'thorough': 12000}
 
 
 def ncases(tier):
